@@ -564,6 +564,9 @@ M = {
     "lockOverlayRead": r"self\.commit_overlay\.read\(\)",
     "overlayLookup": r"overlay\.get\(col as usize\)\.and_then\(",
     "logOverlays": r"self\.log\.overlays\(\)",
+    # btree point reads: the read guard of the LOG overlays is taken once and held across the whole tree walk
+    # (seeded change C05-c05e handed the bare RwLock to BTreeTable::get, which then locks per fetch)
+    "lockLogOverlayRead": r"self\.log\.overlays\(\)\.read\(\)",
     "columnLookup": r"column\.(?:get|get_size|get_value|with_locked)\(",
     # commit_changes (C08)
     "collectTx": r"tx\.into_iter\(\)\.collect\(\)",
@@ -637,6 +640,7 @@ GUARDS = {
     "lockTreesRead": "unlockTreesRead", "lockTreesWrite": "unlockTreesWrite",
     "lockCleanupQueue": "unlockCleanupQueue", "lockLogPool": "unlockLogPool",
     "lockAppending": "unlockAppending", "lockOverlays": "unlockOverlays",
+    "lockLogOverlayRead": "unlockLogOverlayRead",
 }
 
 # callees that do not touch the database directory (strict functions)
@@ -661,9 +665,11 @@ FUNCS = [
       ("anyUnlock", "*"), ("returnHandle", "1")], [],
      {"strict_until": "tryLock"}),
     ("dbGet", "src/db.rs", "DbInner", "get",
-     [("lockOverlayRead", "+"), ("overlayLookup", "+"), ("logOverlays", "*"), ("columnLookup", "+")], [], {}),
+     [("lockOverlayRead", "+"), ("overlayLookup", "+"), ("lockLogOverlayRead", "*"), ("logOverlays", "*"),
+      ("columnLookup", "+")], [], {}),
     ("dbGetSize", "src/db.rs", "DbInner", "get_size",
-     [("lockOverlayRead", "+"), ("overlayLookup", "+"), ("logOverlays", "*"), ("columnLookup", "+")], [], {}),
+     [("lockOverlayRead", "+"), ("overlayLookup", "+"), ("lockLogOverlayRead", "*"), ("logOverlays", "*"),
+      ("columnLookup", "+")], [], {}),
     ("dbGetNode", "src/db.rs", "DbInner", "get_node",
      [("lockOverlayRead", "+"), ("overlayLookup", "+"), ("logOverlays", "*"), ("columnLookup", "+")], [], {}),
     ("dbGetNodeChildren", "src/db.rs", "DbInner", "get_node_children",
